@@ -13,6 +13,7 @@ import (
 // H_IdInRange_Total: IdInRange never panics and is a function of the code
 // point only (two lookups agree), for every int32.
 func H_IdInRange_Total() {
+	zv.NoSummaries()
 	r := zv.Rune("r")
 	a := syntax.IdInRange(r)
 	b := syntax.IdInRange(r)
